@@ -548,8 +548,8 @@ def run(chk):
                       "naming": tuple("s%02d" % k for k in range(n)) if naming == "list" else "conv"})
 
     # ---- bounded-exhaustive distributions and enumeration orders of valid traces
-    lim = chk.budget(10, 40)
-    nperm = chk.budget(3, 10)
+    lim = chk.budget(10, 80)
+    nperm = chk.budget(3, 12)
     bases = []
     for si, skel in enumerate(shapes()):
         for rankmode in ("none", "rev", "fwd"):
@@ -726,7 +726,7 @@ def run(chk):
     chk.coverage["rule"] = ("skeletons of 2-4 threads in 1-2 processes x 1-2 looms (identifiers chosen so that numeric, strcmp and list "
                             "order differ); every placement of app_id / (rank,nranks) on a non-empty subset of a process's threads; every "
                             "placement of ascending/descending sub-lists of loom_cpus on a loom's threads with complete union (complete "
-                            "when there are at most 10 (quick) / 40 (thorough) per skeleton, else that many sampled); stream enumeration "
-                            "orders via directory names (up to 3 / 10 permutations) plus the conventional loom.X/proc.P/thread.T names, directories created in "
+                            "when there are at most 10 (quick) / 80 (thorough) per skeleton, else that many sampled); stream enumeration "
+                            "orders via directory names (up to 3 / 12 permutations) plus the conventional loom.X/proc.P/thread.T names, directories created in "
                             "shuffled order; every single contradiction at every carrier position; invalid-but-unlisted metadata; "
                             "rank ties. distinct = distinct (ordered metadata, directory naming)")
